@@ -21,9 +21,14 @@ class Cz:
         # a fractional number of seconds whose product with 1000 is not exact in floating point (1.005, 2.01, 2.03, 4.06, 8.03 s)
         self.c = store.Concretiser(rnd, scales=(2, 10, 1000, 1000, 2010, 4020, 4060, 8120, 16060, 21600000))   # the last: 6 h per tick, merged events pass 24 h
 
+    # C07 loops: every event of a run is this many microseconds longer than its grid duration (less than half a tick, so no
+    # merge decision changes and a merged event is longer by exactly the same amount): durations with a sub-millisecond
+    # part go through the store and through heartbeat_reduce
+    eps = timedelta(0)
+
     def ev(self, e, Event):
         data = {"v": e["d"]} if e["d"] != "c" else {"v": "a", "extra": [1]}      # "c" equals "a" except for one more key
-        return Event(timestamp=self.c.dt(e["ts"]), duration=self.c.td(e["dur"]), data=data)
+        return Event(timestamp=self.c.dt(e["ts"]), duration=self.c.td(e["dur"]) + self.eps, data=data)
 
     def pul(self, p2):          # pulsetime in half-ticks -> seconds
         return p2 * self.c.scale / 2000.0
@@ -31,7 +36,7 @@ class Cz:
     def proj(self, e, with_id=False):
         half = MS * self.c.scale / 2
         q1, r1 = divmod(e.timestamp - self.c.base, half)
-        q2, r2 = divmod(e.duration, half)
+        q2, r2 = divmod(e.duration - self.eps, half)
         z = timedelta(0)
         out = {"ts": q1 if r1 == z else -99999, "dur": q2 if r2 == z else -99999, "d": "c" if "extra" in e.data else str(e.data.get("v", "?"))}
         if with_id:
@@ -126,6 +131,7 @@ def run_loop(ds, kind, rnd, uniq, stream, p2):
     from aw_core.models import Event
     from aw_transform import heartbeat_merge, heartbeat_reduce
     cz = Cz(rnd)
+    cz.eps = timedelta(microseconds=rnd.choice([0, 0, 0, 4, 996, 500, 123]))
     bn, sn = "hb-%s" % uniq, "hbspect-%s" % uniq
     spect = ds.create_bucket(sn, "t", "c", "h")
     # the spectator shares start and end instants with the stream
